@@ -280,7 +280,10 @@ impl Sim {
             self.start(i);
         }
         self.pt.inc = voters.clone();
-        self.pt.enabled = true;
+        // P-level traces only from runs whose application hands out real snapshots: plain
+        // MemStorage::snapshot (a test double) raises the snapshot index to the requested one,
+        // above the commit index, and a follower then reports uncommitted entries committed
+        self.pt.enabled = sim_snap;
         self.with_mon(|m, s| m.on_boot(s));
     }
 
